@@ -43,7 +43,8 @@ K2_SIG = "C11:K2-math-builtin-prints-bare-name"
 K3_SIG = "C11:K3-deferred-equality-prints-as-comparison"
 REQUIRED_CLASSES = ["expr:key:quote", "expr:key:label-inside", "expr:key:int", "expr:node:builtin+params",
                     "expr:node:call+kwargs", "expr:node:neg-literal-pow-base", "expr:node:computed-key",
-                    "load:json-roundtrip", "copy:plain", "copy:no-overwrite", "copy:bind-rename", "copy:bind-d", "copy:bind-d+e"]
+                    "load:json-roundtrip", "copy:plain", "copy:no-overwrite", "copy:bind-rename", "copy:bind-d", "copy:bind-d+e", "copy:bind-rename/keep",
+                    "copy:bind-rename/pre", "copy:bind-d/keep", "copy:kept-existing-definition"]
 
 # ------------------------------------------------------------------ part 1: expressions
 KEY_POOL = ["a", "b", "ref_a", "d", "ref", "o", "F", "d['x']", "a']['b", "o.a", "x'][0", "it's", 'say "hi"', "back\\slash",
@@ -438,8 +439,33 @@ def exec_load(ctx, case):
 
 
 # ------------------------------------------------------------------ part 3: copy_expr_from
-MODES = ["plain", "no-overwrite", "bind-rename", "bind-d", "bind-d+e"]
+# <binding>[/keep][/pre]:  /keep = overwrite=False over pre-existing definitions of the target, /pre = the target has
+# definitions of its own that the copy may overwrite
+MODES = ["plain", "no-overwrite", "bind-rename", "bind-d", "bind-d+e", "bind-rename/keep", "bind-rename/pre", "bind-d/keep"]
 BIND_MODES = ("bind-rename", "bind-d", "bind-d+e")
+
+
+def base_of(mode):
+    return mode.split("/")[0]
+
+
+def keeps(mode):
+    return mode == "no-overwrite" or mode.endswith("/keep")
+
+
+def has_prehistory(mode):
+    return mode in ("plain", "no-overwrite") or "/" in mode
+
+
+def tr_op(op, bind):
+    out = dict(op)
+    if "loc" in op:
+        out["loc"] = W.json_loc(tr_key(W.tuple_loc(op["loc"]), bind))
+    if "ast" in op:
+        out["ast"] = tr_ast(op["ast"], bind)
+    if "operand" in op:
+        out["operand"] = tr_ast(op["operand"], bind)
+    return out
 
 
 def tr_key(key, bind):
@@ -468,6 +494,7 @@ def tr_ast(ast, bind):
 
 
 def bind_map(mode):
+    mode = base_of(mode)
     if mode == "bind-rename":
         return {"d": ("dd", ())}
     if mode == "bind-d":
@@ -479,6 +506,7 @@ def bind_map(mode):
 
 def restructure(roots, mode):
     """standard roots -> target roots for the binding modes"""
+    mode = base_of(mode)
     if mode not in BIND_MODES:
         return roots
     if mode == "bind-rename":
@@ -496,7 +524,7 @@ def restructure(roots, mode):
 
 def target_real(init, mode):
     import xdeps
-    if mode not in BIND_MODES:
+    if base_of(mode) not in BIND_MODES:
         return W.Real(init)
     roots = restructure(W.build_roots(init), mode)
     self = W.Real.__new__(W.Real)
@@ -518,17 +546,16 @@ def diff_any(real_roots, model_roots):
     return None
 
 
-def merged_defs(src_model, tgt_model, name, mode):
-    """definitions of the target after copy_expr_from (model side)"""
-    bind = bind_map(mode)
-    out = dict(tgt_model.defs)
+def merged_defs(src_defs, tgt_defs, name, bind, overwrite):
+    """definitions of the target after copy_expr_from (model side); tgt_defs already in target coordinates"""
+    out = dict(tgt_defs)
     copied = []
-    for t, ast in src_model.defs.items():
+    for t, ast in src_defs.items():
         if t[0] != name:
             continue
         t2, a2 = tr_key(t, bind), tr_ast(ast, bind)
         if t2 in out:
-            if mode == "no-overwrite":
+            if not overwrite:
                 continue
             out.pop(t2)
         out[t2] = a2
@@ -540,7 +567,7 @@ def merged_defs(src_model, tgt_model, name, mode):
 def copy_cases(draw, opts):
     mode = draw(st.sampled_from(MODES))
     name = draw(st.sampled_from(["d", "d", "d", "e", "g"])) if mode in ("plain", "no-overwrite") else \
-        draw(st.sampled_from(["d", "d", "e"] if mode == "bind-d+e" else ["d"]))
+        draw(st.sampled_from(["d", "d", "e"] if base_of(mode) == "bind-d+e" else ["d"]))
     gs = H.Gen(draw, opts)
     for _ in range(draw(st.integers(3, opts.max_ops))):
         if not gs.step():
@@ -551,10 +578,10 @@ def copy_cases(draw, opts):
             "bind_keys": draw(st.sampled_from(["label", "ref"]))}
     if gs.raised:
         return case
-    if mode in ("plain", "no-overwrite"):
+    if has_prehistory(mode):
         gt = H.Gen(draw, H.Opts(ftasks=False, knobs=False, maint=False, max_ops=8, min_ops=0, math_builtins=False,
                                 setc=False, unreg=False))
-        for _ in range(draw(st.integers(0, 8))):
+        for _ in range(draw(st.integers(0 if "/" not in mode else 2, 8))):
             if not gt.step():
                 break
         if gt.raised:
@@ -566,10 +593,8 @@ def copy_cases(draw, opts):
     else:
         tm = W.Model(current_init(gs.model))
         case["tgt"] = {"init": {k: E.enc(v) for k, v in current_init(gs.model).items()}, "ops": []}
-    defs, copied = merged_defs(gs.model, tm, name, mode)
-    if mode in BIND_MODES:
-        # the target model lives in the standard world; translation happens at execution
-        defs = {t: a for t, a in gs.model.defs.items() if t[0] == name}
+    # the generator works in the standard world (a rebinding only relabels); translation happens at execution
+    defs, copied = merged_defs(gs.model.defs, tm.defs, name, {}, not keeps(mode))
     tm.defs = defs
     tm.limit = H.INT_LIMIT
     ok = True
@@ -588,7 +613,7 @@ def copy_cases(draw, opts):
         case["discard"] = "Python raises while bringing the target up to date"
         return case
     # follow-ups: plain value assignments drawn against the merged model (standard world)
-    if mode in ("plain", "no-overwrite"):
+    if has_prehistory(mode):
         gf = gt
     else:
         gf = gs
@@ -629,20 +654,27 @@ def exec_copy(ctx, case):
     tinit = {k: E.dec(v) for k, v in case["tgt"]["init"].items()}
     tgt_model = W.Model(tinit)
     tgt = target_real(tinit, mode)
+    bind = bind_map(mode)
     for op in case["tgt"]["ops"]:
-        mexc, outs = apply_both(tgt_model, [("tgt", tgt)], op)
-        if mexc is not None or outs["tgt"] is not None:
+        try:
+            tgt_model.apply(op)                 # standard coordinates
+            tgt.apply(tr_op(op, bind))          # the target's own labels
+        except Exception:
             return finish(None, False)
+    if case["tgt"]["ops"] and bind:
+        classes.add("copy:target-has-own-definitions+rebinding")
     if any(nonfinite_literal(a) for mm in (src_model, tgt_model) for a in mm.defs.values()):
         ctx.stats.excluded[OUTSIDE] += 1
         return finish(None, False)
-    bind = bind_map(mode)
-    defs, copied = merged_defs(src_model, tgt_model, name, mode)
+    own = {tr_key(t, bind): tr_ast(a, bind) for t, a in tgt_model.defs.items()}
+    defs, copied = merged_defs(src_model.defs, own, name, bind, not keeps(mode))
+    if keeps(mode) and any(tr_key(t, bind) in own for t in src_model.defs if t[0] == name):
+        classes.add("copy:kept-existing-definition")
     tgt_model.roots = restructure(tgt_model.roots, mode)
     tgt_model.defs = defs
     where = {"mode": mode, "container": name, "source": rendered["source"], "target": rendered["target"]}
     kwargs = {}
-    if mode == "no-overwrite":
+    if keeps(mode):
         kwargs["overwrite"] = False
     if bind:
         b = {}
